@@ -89,6 +89,65 @@ def write(path, content):
     os.makedirs(os.path.dirname(path), exist_ok=True)
     open(path, "w").write(content)
 
+ENDPT = {"p.start": "p1", "p.end": "p2", "q.start": "q1", "q.end": "q2"}
+
+def collinear_table(repo, outdir):
+    """Gen/CollinearTable.lean: the match of `collinear_intersection` (line_intersection.rs), row by row in
+    source order, with its `if` guards: patterns over the four envelope-membership bits."""
+    src = strip_comments(open(os.path.join(repo, "geo/src/algorithm/line_intersection.rs")).read())
+    m = re.search(r"fn collinear_intersection.*?match\s*\(\s*p_bounds\.intersects\(&q\.start\),\s*p_bounds\.intersects\(&q\.end\),"
+                  r"\s*q_bounds\.intersects\(&p\.start\),\s*q_bounds\.intersects\(&p\.end\),?\s*\)\s*\{(.*?)\n\s*\},?\s*\)", src, flags=re.S)
+    if not m:
+        die("collinear_intersection: match on the four envelope bits not found in the expected form")
+    body = m.group(1)
+    arms = [a.strip() for a in re.split(r",\s*\n", body) if a.strip()]
+    lines = []
+    nrows = 0
+    default_none = False
+    for arm in arms:
+        arm = arm.rstrip(",").strip()
+        if re.fullmatch(r"_\s*=>\s*return None", arm):
+            default_none = True
+            continue
+        mm = re.fullmatch(r"\((\w+|_),\s*(\w+|_),\s*(\w+|_),\s*(\w+|_)\)\s*(?:if\s+([\w.]+)\s*==\s*([\w.]+)\s*)?=>\s*(.+)", arm, flags=re.S)
+        if not mm:
+            die("collinear_intersection: cannot translate arm: %r" % arm[:80])
+        pats = mm.group(1, 2, 3, 4)
+        conds = []
+        for name, pat in zip("abcd", pats):
+            if pat == "true": conds.append(name)
+            elif pat == "false": conds.append("!" + name)
+            elif pat != "_": die("collinear_intersection: bad pattern %r" % pat)
+        if mm.group(5):
+            x, y = mm.group(5), mm.group(6)
+            if x not in ENDPT or y not in ENDPT: die("collinear_intersection: bad guard %r" % arm[:80])
+            conds.append("(%s == %s)" % (ENDPT[x], ENDPT[y]))
+        rhs = " ".join(mm.group(7).split())
+        r = re.fullmatch(r"collinear\((p|q)\)", rhs)
+        if r:
+            res = "some (.collinear %s1 %s2)" % (r.group(1), r.group(1))
+        else:
+            r = re.fullmatch(r"collinear\(Line::new\(([\w.]+),\s*([\w.]+)\)\)", rhs)
+            if r and r.group(1) in ENDPT and r.group(2) in ENDPT:
+                res = "some (.collinear %s %s)" % (ENDPT[r.group(1)], ENDPT[r.group(2)])
+            else:
+                r = re.fullmatch(r"improper\(([\w.]+)\)", rhs)
+                if r and r.group(1) in ENDPT:
+                    res = "some (.single %s false)" % ENDPT[r.group(1)]
+                else:
+                    die("collinear_intersection: cannot translate result %r" % rhs)
+        lines.append("  if %s then %s else" % (" && ".join(conds) if conds else "true", res))
+        nrows += 1
+    if not default_none:
+        die("collinear_intersection: default arm `_ => return None` not found")
+    out = ["/- generated by translator/rs2lean.py from geo/src/algorithm/line_intersection.rs (collinear_intersection); do not edit -/",
+           "import GeoModel.LineIntersection", "", "namespace Geo.Gen", "",
+           "/-- the match of `collinear_intersection`, in source order; `a b c d` = `p_bounds ∋ q.start`, `p_bounds ∋ q.end`,",
+           "`q_bounds ∋ p.start`, `q_bounds ∋ p.end` -/",
+           "def collinearTable (a b c d : Bool) (p1 p2 q1 q2 : Pt) : Option LI :="] + lines + ["  none", "", "end Geo.Gen", ""]
+    write(os.path.join(outdir, "CollinearTable.lean"), "\n".join(out))
+    return nrows
+
 def main():
     repo, outdir = sys.argv[1], sys.argv[2]
     im = strip_comments(open(os.path.join(repo, "geo/src/algorithm/relate/geomgraph/intersection_matrix.rs")).read())
@@ -126,7 +185,8 @@ def main():
               "def opTypeRule : List (String × String) := [" + ", ".join('("%s", "%s")' % p for p in pairs) + "]", "",
               "end Geo.Gen", ""]
     write(os.path.join(outdir, "Enums.lean"), "\n".join(enums))
-    print("rs2lean: wrote Masks.lean (%d predicates), Enums.lean (%d op rules)" % (len(fns), len(pairs)))
+    rows = collinear_table(repo, outdir)
+    print("rs2lean: wrote Masks.lean (%d predicates), Enums.lean (%d op rules), CollinearTable.lean (%d rows)" % (len(fns), len(pairs), rows))
 
 if __name__ == "__main__":
     main()
